@@ -25,6 +25,7 @@ def run(run, model):
     run.do(marker.body_rules, model, "C02.body-unheld", None)
     run.do(meta.provenance_rule, model, "C02.inherited-post", "__postconditions__", "postconditions")
     run.do(c18.find_rule, model, "C02.single-checker")
+    run.do(gates.c08_place, model, "C02.old-available")
     run.minimum("C02.gate", 2)
     run.minimum("C02.result-identity", 11, "two returns per marker wrapper, one in the __new__ wrapper")
     run.minimum("C02.exc-transparent", 11)
